@@ -30,7 +30,7 @@ const (
 // One entry of a configuration set: proxy name index + variant (a changed field), or absent.
 type Entry struct {
 	Name    int `json:"name"`
-	Variant int `json:"variant"` // 0..2: remotePort / encryption / metadata differ
+	Variant int `json:"variant"` // 0..3: remotePort / encryption + metadata / only the local port (nothing the server sees) differ
 }
 
 type Step struct {
@@ -51,7 +51,7 @@ func genSet(t *rapid.T, l string) ([]Entry, []int) {
 	var set []Entry
 	for i := range pnames {
 		if rapid.IntRange(0, 2).Draw(t, fmt.Sprintf("%s/has%d", l, i)) > 0 {
-			set = append(set, Entry{Name: i, Variant: rapid.IntRange(0, 2).Draw(t, fmt.Sprintf("%s/var%d", l, i))})
+			set = append(set, Entry{Name: i, Variant: rapid.IntRange(0, 3).Draw(t, fmt.Sprintf("%s/var%d", l, i))})
 		}
 	}
 	// reorder and sometimes duplicate a name with identical content (duplicates of differing content have no defined meaning)
@@ -103,6 +103,8 @@ func mkProxy(e Entry, backendPort int) v1.ProxyConfigurer {
 	case 2:
 		p.Transport.UseEncryption = true
 		p.Metadatas = map[string]string{"k": "v"}
+	case 3:
+		p.LocalPort = backendPort + 1 // a change the server never sees: the entry changed all the same
 	}
 	return p
 }
